@@ -1,6 +1,7 @@
 package props
 
 import (
+	"strings"
 	"testing"
 
 	"pgregory.net/rapid"
@@ -41,15 +42,39 @@ func TestC11(t *testing.T) {
 	})
 }
 
+// c16Contexts put one and the same selector under different enclosing functions /
+// groupings, so that selects which differ only in their hints meet in one query.
+var c16Contexts = []string{
+	"sum(%s)", "sum(-%s)", "sum((%s))", "sum without () (%s)", "sum by (a) (%s)", "sum without (a) (%s)", "sum by (a, b) (%s)",
+	"max(%s)", "max(-%s)", "count(%s)", "sum(abs(%s))", "sum(%s @ end())", "sum(%s offset 1m)", "avg by (a) (%s)", "sum(+%s)",
+	"sum(rate(%s[1m]))", "sum(count_over_time(%s[1m]))", "sum by (a) (rate(%s[1m]))", "topk(1, sum(%s))", "sum(%s * 2)",
+}
+
 func TestC16(t *testing.T) {
 	runProp(t, "C16", func(t *rapid.T) *core.Case {
-		return drawGeneral(t, gen.Profile{MaxDepth: 4}, gen.WindowOpts{}, gen.DataOpts{Specials: true, MaxSeries: 8, Histogram: true})
+		c := drawGeneral(t, gen.Profile{MaxDepth: 4}, gen.WindowOpts{}, gen.DataOpts{Specials: true, MaxSeries: 8, Histogram: true})
+		if rapid.IntRange(0, 2).Draw(t, "twinsel") == 0 {
+			sel := rapid.SampledFrom([]string{"m", "n", `m{a="1"}`, `m{a=~"1|2",b!=""}`, `k{c!~"3"}`}).Draw(t, "sel")
+			n := rapid.IntRange(2, 3).Draw(t, "nctx")
+			q := ""
+			for i := 0; i < n; i++ {
+				ctx := rapid.SampledFrom(c16Contexts).Draw(t, "ctx")
+				part := strings.Replace(ctx, "%s", sel, 1)
+				if i == 0 {
+					q = part
+				} else {
+					q += rapid.SampledFrom([]string{" + ", " / on () ", " - on (a) group_left () "}).Draw(t, "glue") + part
+				}
+			}
+			c.Query = q
+		}
+		return c
 	})
 }
 
 func TestC19(t *testing.T) {
 	runProp(t, "C19", func(t *rapid.T) *core.Case {
-		do := gen.DataOpts{Specials: true, MaxSeries: 10, Histogram: true}
+		do := gen.DataOpts{Specials: true, MaxSeries: 10, Histogram: true, Twins: true}
 		if rapid.IntRange(0, 2).Draw(t, "extreme") == 0 {
 			do.Profile = "extreme"
 		}
